@@ -29,6 +29,10 @@ HEXD_ANY = z3.Union(z3.Range("0", "9"), z3.Range("a", "f"), z3.Range("A", "F"))
 ASCII_RE = z3.Star(z3.Range(chr(0), chr(127)))
 
 
+IMMUTABLE_CTORS = {"re.compile", "builtins.frozenset", "builtins.tuple", "builtins.str", "builtins.int", "builtins.float", "builtins.bytes",
+                   "decimal.Decimal", "fractions.Fraction", "string.Template", "struct.Struct", "operator.itemgetter", "operator.attrgetter"}
+
+
 def acc_fn(sort):
     return z3.Function("ACC_%s" % sort, z3.ArraySort(I, sort), z3.ArraySort(I, sort))
 
@@ -102,6 +106,8 @@ class Registry:
 
 
 def _num(v):
+    if z3.is_expr(v) and v.sort() == Val:
+        return z3.Function("val2real", Val, R)(v)      # result of an unmodelled library call used as a number
     if not is_num(v):
         raise OutOfSubset("numeric argument expected, got %r" % (v,))
     return v
@@ -315,10 +321,21 @@ def install_externals(reg):
         if [k for k in kw if k != "**"]:
             raise OutOfSubset("opaque call with explicit keywords")
         argt = kws.term if kws is not None else z3.Const("nokwargs", Val)
-        if args:
-            raise OutOfSubset("opaque call with positional args")
         res = []
-        cond = z3.Function("raises:APPLY", Val, Val, B)(f, argt)
+        if args:
+            # a callable VALUE applied to positional arguments (a wrapper factory such as lru_cache(...)(f), a method of an
+            # opaque object such as a compiled regex): an uninterpreted function of the callee and its arguments; a method
+            # of a module-level object whose constructor is not known to build immutable values reads shared mutable state
+            n = len(args)
+            cond = z3.Function("raises:APPLY%d" % n, *([Val] * (n + 2) + [B]))(f, *args, argt)
+            result = z3.Function("APPLY%d" % n, *([Val] * (n + 2) + [Val]))(f, *args, argt)
+            shared = None
+            if z3.is_app(f) and f.decl().name().startswith("attr:") and f.num_args() == 1:
+                shared = p.ghost.get("opaque_globals", {}).get(f.arg(0).sexpr())
+        else:
+            cond = z3.Function("raises:APPLY", Val, Val, B)(f, argt)
+            result = z3.Function("APPLY", Val, Val, Val)(f, argt)
+            shared = None
         pr, pn = ex.split(p, cond)
         p.effects.append(("call-opaque", f, argt))
         if pr is not None:
@@ -326,7 +343,11 @@ def install_externals(reg):
             res.append((pr, Raise("Propagated", "exception of the called function")))
         if pn is not None:
             pn.effects.append(("call-opaque", f, argt))
-            res.append((pn, z3.Function("APPLY", Val, Val, Val)(f, argt)))
+            if shared is not None and shared[1] not in IMMUTABLE_CTORS:
+                pn.havoc.append(("method of the module-level object %s built by %s (shared, possibly mutable)" % shared, node.lineno))
+                pn.effects.append(("global-mutable-call", shared[0], shared[1], node.lineno))
+                result = fresh("havoc_shared_" + shared[0], Val)
+            res.append((pn, result))
         return res
     E["<opaque-call>"] = opaque_call
 
